@@ -103,6 +103,13 @@ def match(p, n, b: dict, expanded: bool = False, exp=None) -> bool:
             return match(p.targets[0], n.target, b, expanded, exp) and match(p.value, n.value, b, expanded, exp)
         if type(p) is not type(n):
             return False
+        if isinstance(p, ast.If):
+            # `if not c: B else: A` is `if c: A else: B`
+            def norm_if(x):
+                while isinstance(x.test, ast.UnaryOp) and isinstance(x.test.op, ast.Not) and x.orelse:
+                    x = ast.If(test=x.test.operand, body=x.orelse, orelse=x.body)
+                return x
+            p, n = norm_if(p), norm_if(n)
         if isinstance(p, ast.Call):
             if not match(p.func, n.func, b, expanded, exp):
                 return False
